@@ -1765,6 +1765,9 @@ class sptensor:
         """
         dims, _ = tt_dimscheck(self.ndims, dims=dims)
 
+        if isinstance(factor, np.ndarray) and factor.ndim != 1:
+            # An array over several modes is the dense tensor of those modes
+            factor = ttb.tensor(factor)
         if isinstance(factor, ttb.tensor):
             shapeArray = np.array(self.shape)
             if not np.array_equal(factor.shape, shapeArray[dims]):
@@ -1787,7 +1790,7 @@ class sptensor:
             )
         if isinstance(factor, np.ndarray):
             shapeArray = np.array(self.shape)
-            if factor.shape[0] != shapeArray[dims]:
+            if len(dims) != 1 or factor.shape[0] != shapeArray[dims[0]]:
                 assert False, "Size mismatch in scale"
             if self.nnz == 0:
                 return self.copy()
